@@ -543,7 +543,8 @@ fn build(b: &BenchDef, sh: &Arc<Shared>, threads: usize) -> Built {
     for n in names.iter() {
         if let Some(pos) = n.rfind('.') {
             let parent = n[..pos].to_string();
-            let short = n[pos + 1..].to_string();
+            // a model whose (unqualified) name is "<unknown>" in the bench is added with an empty name
+            let short = if &n[pos + 1..] == "<unknown>" { String::new() } else { n[pos + 1..].to_string() };
             let child = protos.remove(n).unwrap();
             let mb = mailboxes.remove(n).unwrap();
             protos.get_mut(&parent).unwrap().children.push((child, mb, short));
@@ -555,7 +556,7 @@ fn build(b: &BenchDef, sh: &Arc<Shared>, threads: usize) -> Built {
     for n in tops {
         let proto = protos.remove(&n).unwrap();
         let mb = mailboxes.remove(&n).unwrap();
-        init = init.add_model(proto, mb, n);
+        init = init.add_model(proto, mb, if n == "<unknown>" { String::new() } else { n });
     }
     // event / query sources of the driver
     let mut esrc: HashMap<String, EventSource<Payload>> = HashMap::new();
